@@ -10,6 +10,7 @@ import expr as X
 from expr import E
 from framework import Task
 from symex import Violation
+import symex
 
 
 def harness(cls, img, osz):
@@ -26,6 +27,7 @@ def harness(cls, img, osz):
          '    vp_watch(in_, %d, "in");' % n,
          '    t.read(mf);',
          '    vp_concolic_stop();',
+         ] + ['    vp_exp(t.%s, "s:%s");' % (lf.path, lf.path) for lf in codec.leaves(cls) if lf.kind in ('int', 'double', 'array')] + [
          '    { static unsigned char o_[%d]; memcpy(o_, IMG0, %d); MemFile m0(o_, %d, %d); T t0; t0.read(m0);' % (n + 8, n, n, n),
          ] + ['      vp_assume(t.%s == t0.%s);   /* same shape: length fields as in the original */' % (f, f)
               for f in sorted(codec.length_fields(cls))] + [
@@ -46,10 +48,70 @@ RECOMPUTED = {c: [(32, 2)] for c in ('EthernetErrorEx', 'EthernetErrorForwarded'
                                       'EthernetFrameForwarded', 'EthernetRxError')}
 
 
-def make_judge(cls, n, osz, img):
+def flip_content_branches(ex, st, judge2):
+    """Generational search, one level deep, restricted to branches on CONTENT bytes: the concolic run follows the
+    original image's decode path, so a decoder that (wrongly) branches on the value of a payload byte - a string cut at
+    a NUL, a byte compared with a magic value - would silently narrow the set of derived images that is examined.
+    Every path constraint whose variables are all bytes that ended up in containers (none of them in a scalar
+    member: those are the length / version / variant selectors that define the shape) is negated, z3 produces a derived
+    image that takes the other side, and that image is decoded / re-encoded / judged like the original."""
+    flips = st.flags.get('cflips') or []
+    if not flips:
+        return
+    scalar = set()
+    for tag, cells in st.outs:
+        if tag.startswith('s:'):
+            scalar |= {v.a[0] for v in J.cells_vars(cells)}
+    done = 0
+    seen = set()
+    for idx, neg in flips:
+        if type(neg) is not E:
+            continue
+        vs = {v.a[0] for v in X.free_vars(neg)}
+        if not vs or vs & scalar or not all(v.startswith('img') for v in vs):
+            continue
+        if neg in seen:
+            continue
+        seen.add(neg)
+        ok, m = ex.solver.check(st.pc[:idx], (neg,))
+        if not ok:
+            ex.obl_solver += 1
+            continue
+        if done >= 24:
+            break
+        done += 1
+        tape = [(m or {}).get(nm, (st.model or {}).get(nm, 0)) for nm, w, k in st.inputs]
+        ex2 = symex.Executor(ex.prog, max_steps=ex.max_steps, max_paths=ex.max_paths, enum_limit=ex.enum_limit)
+        ex2.solver = ex.solver
+        ex2.concolic_tape = tape
+        ex2.on_path_end = judge2
+        ex2.hooks = ex.hooks
+        try:
+            ex2.run(ex.entry_name)
+        except symex.Inconclusive as e:
+            ex.results.append(symex.PathResult('limit', 'flipped content branch: %s' % e, st))
+            continue
+        ex.flip_paths = getattr(ex, 'flip_paths', 0) + len(ex2.results)
+        ex.obl_solver += ex2.obl_solver
+        ex.obl_concrete += ex2.obl_concrete
+        ex.obl_failed += ex2.obl_failed
+        for v in ex2.violations:
+            v.msg += ' [derived image taking the other side of a branch on content bytes %s]' % sorted(vs)[:3]
+            ex.violations.append(v)
+        for k2, c2 in ex2.reached.items():
+            ex.reached[k2] = ex.reached.get(k2, 0) + c2
+        ex.funcs_run |= ex2.funcs_run
+        for r in ex2.results:
+            if r.status not in ('ok', 'assume'):
+                ex.results.append(r)
+
+
+def make_judge(cls, n, osz, img, flip=True):
     def judge(ex, st, status):
         if status != 'ok':
             return
+        if flip:
+            flip_content_branches(ex, st, make_judge(cls, n, osz, img, flip=False))
         g = J.note(st, 'g')
         p = J.note(st, 'p')
         good = J.note(st, 'good')
